@@ -183,6 +183,9 @@ def pinned_special():
     cs.append(mk("special:two-far-hunks", {"f.lua": b"local   a = 1\n" + mid + b"local   z = 1"}))
     # names in sub directories and with blanks
     cs.append(mk("special:names", {"sub/x y.lua": b"local   a = 1\n", "sub/ok.lua": b"local a = 1\n", "z.lua": b"return   1\n"}))
+    # names that need care when printed: backslash (not a separator here), quote (JSON escaping), tab, non-ASCII
+    cs.append(mk("special:names-odd", {"sub/back\\slash.lua": b"local   a = 1\n", "gen\\out/mod.lua": b"local   b = 1\n", "q\"uote.lua": b"local   c = 1\n",
+                                       "tab\tname.lua": b"local   d = 1\n", "\u00fcn\u00ef/\u00e7\u00e9.lua": b"local   e = 1\n", "ok.lua": b"local f = 1\n"}))
     return cs
 
 
